@@ -27,5 +27,5 @@ def scenarios(tier):
                  [("TRAVEL", "O2"), ("TRAVEL", "I1"), ("PRINT", "O2"), ("PRINT", "I2"), ("PRINT", "O1"), ("RETRACT",),
                   ("RECOVER",), ("ESET0",), ("INCH",), ("MM",), ("AT", "ExcludeRegion", "disable"),
                   ("AT", "ExcludeRegion", "enable")],
-                 max_depth=6 if q else 8, max_states=3000000),
+                 max_depth=7 if q else 9, max_states=3000000),
     ]
